@@ -176,9 +176,9 @@ def dictSet (p : Prims) (es : List (V × V)) (k v : V) : List (V × V) :=
 def attrGet (attrs : List (String × V)) (k : String) : Option V :=
   (attrs.find? (·.1 == k)).map (·.2)
 
+/-- `d[k] = v` on a string-keyed mapping whose order is never observed (frames, ScopeVars, kwargs) -/
 def attrSet (attrs : List (String × V)) (k : String) (v : V) : List (String × V) :=
-  if attrs.any (·.1 == k) then attrs.map (fun e => if e.1 == k then (k, v) else e)
-  else attrs ++ [(k, v)]
+  (k, v) :: attrs.filter (·.1 != k)
 
 section loops
 variable {σ : Type} [ScopeAlg σ]
